@@ -235,15 +235,15 @@ def handle (line : String) : String :=
           giMatch := giMatchOf tbl }
         -- the glue of Scan / filesystem.Run (Model/Scan.lean `glue`): refused configurations and the scan without filesystem extractors
         match glue c roots.length (getKV kv "out" ≥ 1) with
-        | .refused => "err=cfg vis=0 calls=- pkgs=- st=- fnd=- hyp=0 glue=refused"
-        | .empty => "err=none vis=0 calls=- pkgs=- st=- fnd=- hyp=0 glue=empty"
+        | .refused => s!"err=cfg vis={if getKV kv "ns" ≥ 1 then "?" else "0"} calls=- pkgs=- st=- fnd=- hyp=0 glue=refused"
+        | .empty => s!"err=none vis={if getKV kv "ns" ≥ 1 then "?" else "0"} calls=- pkgs=- st=- fnd=- hyp=0 glue=empty"
         | .walks =>
         let r := run c roots
         let o := scan naming c roots
         let hyp := c.maxInodes = 0 && !c.errorOnFSErrors && !c.cancelBefore && c.cancelAt.isNone &&
           ext.all (fun x => !x.2.panics)
         let spec := mustExtract c roots
-        s!"err={showErr r.err} vis={r.visited} calls={joinWith ";" ((r.calls.filter (·.opened)).map showCall)} " ++
+        s!"err={showErr r.err} vis={if getKV kv "ns" ≥ 1 then "?" else toString r.visited} calls={joinWith ";" ((r.calls.filter (·.opened)).map showCall)} " ++
         s!"pkgs={joinWith ";" (o.pkgs.map showPkg)} " ++
         s!"st={joinWith "," (o.statuses.map fun (e, st) => s!"{e}={showStatus st}")} " ++
         s!"hyp={boolStr hyp} spec={joinWith ";" ((spec.filter (·.opened)).map showCall)} " ++
